@@ -63,13 +63,25 @@ def ungated_node(prog, calls, f, ip, T, consts=None, depth=0):
     gset = {n.id for (n, _t) in right}
     bad = None
     delegated = 0
+    # `for error in _helper(validator, instance, ...): yield error`: what is yielded there was produced behind the helper's own gate
+    forwarded = set()
+    for n in cfg.live:
+        if n.kind == "for" and isinstance(n.ast.target, ast.Name) and depth < 3:
+            hb = _helper_binding(calls, f, n, ip)
+            if hb is not None and hb[0].is_generator:
+                sb, sright, swrong = ungated_node(prog, calls, hb[0], hb[1], T, hb[2], depth + 1)
+                if sb is None and sright and not swrong:
+                    forwarded.add(n.ast.target.id)
     seen_n, todo = set(), [cfg.entry]
     while todo and bad is None:
         n = todo.pop()
         if n.id in seen_n:
             continue
         seen_n.add(n.id)
-        if n.id not in gset:
+        if n.kind == "yield" and isinstance(getattr(n.ast, "value", None), ast.Yield) and isinstance(n.ast.value.value, ast.Name) \
+                and n.ast.value.value.id in forwarded:
+            pass
+        elif n.id not in gset:
             uses = any(isinstance(x, ast.Name) and x.id == ip for e in node_exprs(n) for x in walk_expr(e))
             effect = n.kind == "yield" or any(
                 isinstance(c, ast.Call) and isinstance(c.func, ast.Attribute) and c.func.attr in ("descend", "is_valid", "iter_errors")
@@ -563,6 +575,12 @@ def _member_name_uses(prog, calls, h):
             names.add(n.target.id)
     if not names:
         return None
+    return _name_uses(prog, calls, h, names, 0)
+
+
+def _name_uses(prog, calls, h, names, depth):
+    """first use of one of `names` in h that is neither membership, a regex search subject, being yielded/collected, nor being
+    handed to a package helper that itself uses it only so"""
     parents = {}
     for st in h.body:
         for a in ast.walk(st):
@@ -580,6 +598,12 @@ def _member_name_uses(prog, calls, h):
             continue
         if isinstance(par, (ast.ListComp, ast.SetComp, ast.GeneratorExp)) and par.elt is n:
             continue
+        if isinstance(par, ast.Call) and n in par.args and depth < 2:
+            tg = [t for t in calls.callee(h, par) if t.kind == "func" and t.func is not None and t.func.cls is None]
+            if len(tg) == 1 and par.args.index(n) < len(tg[0].func.params):
+                inner = _name_uses(prog, calls, tg[0].func, {tg[0].func.params[par.args.index(n)]}, depth + 1)
+                if inner is None:
+                    continue
         return par if par is not None else n
     return None
 
